@@ -45,6 +45,18 @@ def _mutate(name):
         def __init__(self, d=None):
             real(self, shared)       # every render of every template shares one repeat state
         tal.RepeatDict.__init__ = __init__
+    elif name == 'forget_before_publish':
+        src_fn = ct.BaseTemplate.cook
+        code = textwrap.dedent(inspect.getsource(src_fn))
+        a = code.index('    for name, function in functions.items():')
+        b = code.index('    # Forget the macros')
+        c = code.index('    self._cooked = True')
+        new = code[:a] + code[b:c].replace("and name[1:] not in functions", "") + code[a:b] + code[c:]
+        assert new != code
+        ns = dict(src_fn.__globals__)
+        exec('from __future__ import annotations\n' + new, ns)
+        ns['cook'].__verif_source__ = new
+        ct.BaseTemplate.cook = ns['cook']
     else:
         raise KeyError(name)
 
@@ -98,6 +110,7 @@ def _res(ok):
 def use(t, what):
     """what a thread does with the shared template: render, or a macro lookup"""
     yield from t.S_cook_check()
+    yield ('use', 0)         # Macros.__getitem__ / render(): the lookup is a statement of its own
     if what == 'macro':
         return t._render_m()
     return t._render()
@@ -141,6 +154,15 @@ def threads(s0: bool, s1: bool, s2: bool, s3: bool, s4: bool, s5: bool, s6: bool
             res[key] = ('exc', type(r[1]).__name__)
     for _ in range(lead):            # thread a runs ahead before the symbolic part of the schedule
         step('a', ga)
+    if CFG.get('lead_b') == 'use':            # ... then thread b runs up to its look-up (check and compilation done)
+        while 'b' not in res:
+            try:
+                if next(gb) == ('use', 0):
+                    break
+            except StopIteration as stop:
+                res['b'] = ('ok', stop.value)
+            except Exception as exc:
+                res['b'] = ('exc', type(exc).__name__)
     for choice in (s0, s1, s2, s3, s4, s5, s6, s7, s8, s9, s10, s11, s12, s13, s14, s15):
         if choice:
             step('a', ga)
